@@ -325,3 +325,38 @@ def chartype(ctx):
            "the trainer labels lexicon word i as i + 1 (slot i)" if ok else
            "the trainer's label for a lexicon word is not word id + 1 (%s): negative edges of the "
            "training lattice carry the neighbouring word's label" % [g[0] for g in got])
+
+
+def userrows(ctx):
+    """USERROW (C14, C18, C15): Model::read_user_lexicon gives every user row its own feature set:
+    on every trip through the loop, the row pushed into user_entries has passed through
+    Trainer::extract_feature_set (with this row's features and first-character category) and
+    FeatureProvider::add_feature_set. A shortcut that reuses the label of an earlier row with the
+    same feature text skips the category (`%t`) and whatever else the extractor derives per row."""
+    from flow import calls_named
+    crate = ctx.facts("A").lib
+    E = Effects(crate)
+    p = "vibrato::trainer::model::Model::read_user_lexicon"
+    f = crate.fns.get(p)
+    if f is None or not f.body:
+        raise EngineError("USERROW: anchor lost: %s" % p)
+    fa = E.fa(p)
+    S = Sym(E, fa)
+    pushes = [(b, t) for b, t in calls_named(fa, "push")
+              if t["args"] and "user_entries" in show(S.operand(t["args"][0]))]
+    if len(pushes) != 1:
+        raise EngineError("USERROW: expected one push into user_entries, found %d" % len(pushes))
+    pb = pushes[0][0]
+    heads = [nb for nb, nt in fa.calls() if "next" in _names(nt) and fa.dominates(nb, pb)]
+    if not heads:
+        raise EngineError("USERROW: the loop over the parsed entries was not found")
+    h = max(heads, key=lambda x: len(fa.dominators().get(x, ())))
+    hs = fa.term(h).get("t")
+    for nm in ("extract_feature_set", "add_feature_set"):
+        cbs = {b for b, t in calls_named(fa, nm)}
+        ok = bool(cbs) and pb not in fa.reachable(hs, avoid=cbs | {h})
+        ctx.ob("USERROW", "%s|every-row-through-%s" % (p, nm), ok, fa.loc(pb),
+               "every user row is pushed only after %s was called for it" % nm if ok else
+               "a user row can be pushed without %s having been called for it in this iteration "
+               "(a label reused from an earlier row): its `%%t` category and per-row features are "
+               "those of another row" % nm)
